@@ -335,17 +335,17 @@ def parseCmd (name : Bytes) (a : List Bytes) : Option Cmd :=
      | nk :: k :: r => do
        let nk ← int? nk
        let all := k :: r
-       -- the first numkeys words are keys, whatever they spell; then nothing or LIMIT n
-       if 0 < nk && nk.toNat ≤ all.length && (all.drop nk.toNat).length != 2 && (all.drop nk.toNat).length != 0 then none
-       else if 0 < nk && nk.toNat ≤ all.length && (all.drop nk.toNat).length == 0 then pure (.sintercard nk all 0)
-       else
-       -- (numkeys out of step with the words: the command function reports it) LIMIT n at the very end
+       -- The grammar-driven argument parser takes a trailing `LIMIT <integer>` for the option even when
+       -- numkeys would make the two words keys (Redis would not); otherwise the first numkeys words
+       -- are keys, whatever they spell, and nothing may follow them.
        let m := all.length
-       if m ≥ 3 && lowerB (all.getD (m - 2) []) == sb "limit" then
-         match int? (all.getD (m - 1) []) with
-         | some lim => pure (.sintercard nk (all.take (m - 2)) lim)
-         | none => none
-       else pure (.sintercard nk all 0)
+       let lim? : Option Int :=
+         if m ≥ 3 && lowerB (all.getD (m - 2) []) == sb "limit" then int? (all.getD (m - 1) []) else none
+       match lim? with
+       | some lim => pure (.sintercard nk (all.take (m - 2)) lim)
+       | none =>
+         if 0 < nk && nk.toNat < m then none        -- words after the keys that are no LIMIT clause
+         else pure (.sintercard nk all 0)
      | _ => none)
   else if n == sb "srandmember" then
     (match a with
